@@ -767,3 +767,18 @@ Proof.
                                sc_heads0 sc_iter0 sc_stored0 sc_dels]. exact R.
 Qed.
 
+
+(* what the race model feeds to the sequential model: per call the batch, under the entry length or the entry length
+   plus the records that landed during the call -- each call of the race model IS a serial outcome *)
+Lemma race_ins_serial : forall ds mid ch i d,
+  nth_error ds i = Some d ->
+  exists n, nth_error (race_ins ds mid ch) i = Some (n, d_batch d) /\
+            (n = d_acl_len d \/ n = (d_acl_len d + nth i mid O)%nat).
+Proof.
+  induction ds as [|d0 r IH]; intros mid ch i d H; [destruct i; discriminate|].
+  destruct i as [|i]; cbn [nth_error race_ins] in *.
+  - inversion H; subst d0. eexists. split; [reflexivity|].
+    destruct (hd false ch); [right|left; reflexivity]. destruct mid; reflexivity.
+  - destruct (IH (tl mid) (tl ch) i d H) as [n [E Hn]]. exists n. split; [exact E|].
+    destruct Hn as [Hn|Hn]; [left; exact Hn|right]. rewrite Hn. destruct mid as [|e mr]; cbn [tl nth]; [destruct i|]; reflexivity.
+Qed.
